@@ -130,7 +130,7 @@ def trees(ctx):
 
 def final_sizes(ctx):
     import EoN
-    for k in range(ctx.scale(6, 60)):
+    for k in range(ctx.scale(8, 60)):
         seed = ctx.rng.randrange(10 ** 6)
         n = ctx.rng.randint(20, 50)
         G = nx.gnp_random_graph(n, 5.0 / n, seed=seed) if ctx.rng.random() < 0.6 else nx.barabasi_albert_graph(n, 2, seed=seed)
@@ -154,6 +154,26 @@ def final_sizes(ctx):
                 ctx.violation("Attack_rate_discrete (%.8f) differs from the limit of EBCM_discrete (%.8f)" % (Ad, limd), dict(rep, attack=Ad, ebcm=limd))
             if np.max(np.abs(Rd[1:] - (Rd[:-1] + Id[:-1]))) > 1e-9 * N:
                 ctx.violation("EBCM_discrete: R(t+1) != R(t) + I(t)", rep)
+            # the same graph OBJECT after its edges have been moved in place (node and edge counts unchanged, degree
+            # distribution changed): the final sizes are those of the graph as it is now = those of a fresh copy
+            es, moved = list(G.edges()), 0
+            ctx.rng.shuffle(es)
+            hub = max(G, key=G.degree)
+            for (u, v) in es[:max(3, len(es) // 3)]:
+                w = u if u != hub else v
+                if w != hub and not G.has_edge(hub, w) and G.degree(w) > 1:
+                    G.remove_edge(u, v)
+                    G.add_edge(hub, w)
+                    moved += 1
+            if moved:
+                H = nx.Graph(G)
+                ctx.count("final-size:rewired in place")
+                A2, A2c = EoN.Attack_rate_cts_time_from_graph(G, tau, gamma, rho=rho, number_its=400), EoN.Attack_rate_cts_time_from_graph(H, tau, gamma, rho=rho, number_its=400)
+                D2, D2c = EoN.Attack_rate_discrete_from_graph(G, p, rho=rho, number_its=400), EoN.Attack_rate_discrete_from_graph(H, p, rho=rho, number_its=400)
+                S2, S2c = EoN.EBCM_discrete_from_graph(G, p, rho=rho, tmax=60)[1][-1], EoN.EBCM_discrete_from_graph(H, p, rho=rho, tmax=60)[1][-1]
+                if abs(A2 - A2c) > 1e-9 or abs(D2 - D2c) > 1e-9 or abs(S2 - S2c) > 1e-9 * N:
+                    ctx.violation("final sizes of a graph object whose edges were moved in place differ from those of a fresh copy of the same graph "
+                                  "(cts %.8f vs %.8f, discrete %.8f vs %.8f)" % (A2, A2c, D2, D2c), dict(rep, moved=moved, edges=[list(e) for e in G.edges()]))
         except Exception as e:
             ctx.violation("final-size relations: %s raised" % type(e).__name__, dict(rep, error=type(e).__name__ + ":" + str(e)[:80]))
     # the same relations when the initial condition is given as node sets (the wrappers then compute Sk0, phiS0, phiR0
